@@ -2,6 +2,7 @@ package world
 
 import (
 	"bytes"
+	"crypto/ecdsa"
 	"crypto/rand"
 	"crypto/sha1"
 	"crypto/x509"
@@ -116,6 +117,12 @@ func MakeCert(spec CertSpec, parent *x509.Certificate, signer *Key) *x509.Certif
 		cp := *par
 		cp.Subject = *spec.IssuerName
 		cp.RawSubject = nil
+		par = &cp
+	}
+	if pk, ok := par.PublicKey.(*ecdsa.PublicKey); par != tmpl && (!ok || pk.X.Cmp(signer.Pub.X) != 0 || pk.Y.Cmp(signer.Pub.Y) != 0) {
+		// signing with a key that is not the named parent's: CreateCertificate insists they match
+		cp := *par
+		cp.PublicKey = &signer.Pub
 		par = &cp
 	}
 	der, err := x509.CreateCertificate(rand.Reader, tmpl, par, &spec.Key.Pub, signer)
